@@ -147,6 +147,7 @@ class Registry:
         self.classes = {}
         self.spec_functions = {}
         self.spec_constants = {}
+        self.schema_only = {}
         self.axioms = []          # [(label, expr-string)] assumed in every VC that mentions them
         self.lemmas = []
         self._strings = {}
@@ -207,14 +208,19 @@ class Registry:
         the function, and listed in the evidence as the *definition* of the spec function."""
         self.spec_axiom_text.setdefault(fname, []).extend(axioms)
 
-    def axiom_schema(self, fname, label, int_params, real_params, body):
+    def axiom_schema(self, fname, label, int_params, real_params, body, closed=True):
         """A definitional axiom of spec function `fname`, given as an open formula: it is closed
         universally where the function is mentioned, and can be instantiated by hand at a hint
         site with ("use", label, [args]) when the solver's triggers do not find the instance."""
-        closed = "forall_int(lambda %s: forall_real(lambda %s: %s))" % (
+        closed_text = "forall_int(lambda %s: forall_real(lambda %s: %s))" % (
             ", ".join(int_params), ", ".join(real_params), body) if real_params else \
             "forall_int(lambda %s: %s)" % (", ".join(int_params), body)
-        self.spec_axiom_text.setdefault(fname, []).append((label, closed))
+        # closed=False: instances only (a recurrence whose universal closure would feed the
+        # solver's instantiation loop); the closed text is kept for the evidence and the model check
+        if closed is not False:
+            self.spec_axiom_text.setdefault(fname, []).append((label, closed_text))
+        else:
+            self.schema_only.setdefault(fname, []).append((label, closed_text))
         self.axiom_instances[label] = (list(int_params) + list(real_params), body)
 
     def arith_lemma(self, name, params, hyps, concl, props=()):
